@@ -54,6 +54,7 @@ type scenario struct {
 	NoParallel bool
 	IdleBulk   time.Duration
 	StreamOn   bool // the connector goes on offering updates during the teardown
+	Seed       int  // messages in INBOX at the start, beyond the usual three (a change of 1:* then pushes that many responses to every idling session)
 }
 
 // outcome is what the child process reports about one scenario.
@@ -119,7 +120,7 @@ func drawScenario(t *rapid.T) scenario {
 }
 
 func (sc scenario) describe() []string {
-	res := []string{fmt.Sprintf("users=%d teardown=%s bulk=%v nopar=%v updates=%v streamThroughTeardown=%v", sc.NUsers, sc.Teardown, sc.IdleBulk, sc.NoParallel, sc.Updates, sc.StreamOn)}
+	res := []string{fmt.Sprintf("users=%d teardown=%s bulk=%v nopar=%v updates=%v streamThroughTeardown=%v seed=%d", sc.NUsers, sc.Teardown, sc.IdleBulk, sc.NoParallel, sc.Updates, sc.StreamOn, 3+sc.Seed)}
 
 	for i, s := range sc.Scripts {
 		var st []string
@@ -251,7 +252,7 @@ func runScenario(sc scenario) (out outcome) {
 			s.Do(cmd)
 		}
 
-		for i := 0; i < 3; i++ {
+		for i := 0; i < 3+sc.Seed; i++ {
 			s.DoParts(imapc.T("APPEND INBOX "), imapc.L(mach.Msg(fmt.Sprintf("%s-%d", u.Name, i), "")))
 		}
 
@@ -669,6 +670,8 @@ func drawContention(t *rapid.T) scenario {
 	if rapid.Bool().Draw(t, "bulk") {
 		sc.IdleBulk = 5 * time.Millisecond
 	}
+
+	sc.Seed = rapid.SampledFrom([]int{0, 40, 120}).Draw(t, "seed")
 
 	for i, n := 0, rapid.IntRange(2, 4).Draw(t, "readers"); i < n; i++ {
 		s := script{Box: "INBOX"}
